@@ -435,7 +435,7 @@ func (g *G) classes() []genClass {
 	case "C13":
 		return []genClass{{5, grid}, {4, sie}, {1, chain}, {1, status}}
 	case "C02":
-		return []genClass{{7, grid}, {1, chain}, {1, sie}, {1, status}, {1, vary}}
+		return []genClass{{7, grid}, {1, chain}, {1, sie}, {1, status}, {1, vary}, {1, func(g *G, id string) *History { return g.genTrailerNoCache(id) }}}
 	case "C18":
 		return []genClass{{6, grid}, {2, gridFault}, {1, chain}, {1, sie}, {2, status}, {1, inval}, {1, vary}}
 	case "C06":
@@ -466,7 +466,7 @@ func (g *G) classes() []genClass {
 	case "C16":
 		return []genClass{{8, func(g *G, id string) *History { return g.genConcurrent(id) }}, {2, func(g *G, id string) *History { return g.genSWR(id) }}, {1, swrInval}}
 	case "C05":
-		return []genClass{{7, func(g *G, id string) *History { return g.genFaithful(id) }}, {2, status}, {1, backends}}
+		return []genClass{{7, func(g *G, id string) *History { return g.genFaithful(id) }}, {2, status}, {1, backends}, {1, func(g *G, id string) *History { return g.genTrailerNoCache(id) }}}
 	case "C20":
 		return []genClass{{8, func(g *G, id string) *History { return g.genSWR(id) }}, {2, grid}, {1, swrInval}}
 	case "C09":
